@@ -60,6 +60,12 @@ def cfgs_quick():
         # end to end on the chunk-boundary lengths (padded length = exactly one / two chunks), incl. the single-worker pipeline
         for (T, ln) in ((1, 31), (1, 63), (2, 31), (2, 63)):
             L.append((2, "none", dict(T=T, len=ln, enc=enc, bound=1, scenario="e2e", cmode=3, hmode=2), 1))
+        # end to end with the size argument given as 0 ("unknown": what the command line passes for a FIFO); three chunks on two / three workers
+        if enc:
+            L.append((2, "none", dict(T=2, len=70, enc=1, bound=1, scenario="e2e", cmode=1, hmode=0, hint0=1), 1))
+            L.append((2, "none", dict(T=3, len=70, enc=1, bound=1, delay=1, scenario="e2e", cmode=2, hmode=0, hint0=1), 1))
+            # the same for the harness streams (ownership log): only differs from the plain run on a tree whose pipeline takes a size estimate
+            L.append((2, "none", dict(T=2, len=70, enc=1, bound=1, hint0=1), 1))
         # the same end-to-end run with scheduling points INSIDE the real stream code (function entry/exit callbacks):
         # two workers interleaved within runcry()/runaes_128bit(); catches state shared between the per-worker streams
         for cm in (0, 1, 2, 3, 4):
